@@ -127,9 +127,10 @@ def check_effects_quiet(ctx, lib):
 def check_parser_side(ctx, lib):
     from ..analysis import Branches, edge_dominates
     from ..parsing import first_discr_switch, region, TOKEN
-    from .c04 import check_top_level
+    from .c04 import check_arm_results, check_top_level
     rule = "parser-composition"
     check_top_level(ctx, lib, rule)
+    ctx.attempt("check_arm_results", check_arm_results, ctx, lib, rule)
     b = ctx.fn(P + "led", rule=rule)
     if b is None:
         return
